@@ -70,6 +70,9 @@ def cmdE (segs : List String) : String :=
     | [cap], some ops => match cap.toNat? with
       | some c => runEnc (Enc.new c) ops []
       | none => "bad"
+    | [cap, fill], some ops => match cap.toNat?, fill.toNat? with
+      | some c, some f => runEnc { buf := List.replicate c (UInt8.ofNat f), off := 0 } ops []
+      | _, _ => "bad"
     | _, _ => "bad"
 
 def showItem : Item → String
